@@ -225,7 +225,7 @@ def run_unit(u, repo, scratch, out_dir):
         records.append(rec)
     # the lemmas / spec of the prelude verified too (verus reports totals only)
     records.append({'id': u['unit'].upper() + '.V.lemmas', 'engine': 'verus', 'kind': 'complete', 'status': 'discharged',
-                    'text': f'spec functions, length lemmas, big-swap / inverse / push-pop lemmas and documented examples of the prelude '
+                    'text': f'spec functions, length lemmas, big-swap / roll-unroll inverse / roll frame / swap == roll=2,1 / flip involution / push-pop lemmas and documented examples of the prelude '
                             f'(verus totals: {vr.get("verified")} verified, {vr.get("errors")} errors incl. canary); extraction dropped {dropped_total} logging lines',
                     'vcs': max(1, int(vr.get('verified', 0)) - len([r for r in ranges if r[3] == 'complete'])), 'verus_s': 0.0, 'smt_ms': smt_ms})
     return {'records': records}
